@@ -15,7 +15,13 @@ use zkabacus_crypto as za;
 
 pub struct C02;
 
-pub const VARIANTS: [&str; 27] = [
+pub const VARIANTS: [&str; 33] = [
+    "close-merchant-balance-mismatch",
+    "balance-just-above-2^63",
+    "invalid-subproof-revlock",
+    "invalid-subproof-state",
+    "invalid-subproof-close",
+    "invalid-subproof-token",
     "control",
     "wrong-nonce",
     "wrong-amount-customer",
@@ -125,7 +131,8 @@ fn pair_bytes(lock: &Scalar, secret: &[u8; 32], index: u8) -> Vec<u8> {
 /// An honest raw payment; on success the raw customer moves to the new state.
 fn pay_honest(rc: &mut RawCustomer, amount: i64, template: &Trace, s: &mut Sched, seed: u64, tag: &str, o: &mut Outcome) -> bool {
     let m = rc.m;
-    let (h, (lock, secret, index), _nonce) = honest_pay_hidden(rc, amount, s);
+    let (mut h, (lock, secret, index), _nonce) = honest_pay_hidden(rc, amount, s);
+    h.digits = digit_count(template);
     let d = pay_draft(m, &h, &rc.token, &PayKnobs::default(), s);
     let ctx = format!("c02-pay/{}/{}", tag, s.u64()).into_bytes();
     let shown = refc::scb(&rc.state[1]).to_vec();
@@ -250,6 +257,8 @@ fn run_case(o: &mut Outcome, case: &Value) {
     let amount: i64 = case["amount"].as_i64().unwrap_or(5);
     let amount = if amount >= 0 { amount.min(rc.cust as i64) } else { amount.max(-(rc.merch as i64)) };
     let (mut h, _newlock, _nn) = honest_pay_hidden(&rc, amount, &mut s);
+    let ndig = digit_count(&template);
+    h.digits = ndig;
     let mut knobs = PayKnobs::default();
     let mut shown = rc.state[1];
     let mut token = rc.token;
@@ -267,13 +276,13 @@ fn run_case(o: &mut Outcome, case: &Value) {
             let nc = (rc.cust as i128 - amount as i128 - 1) as u64;
             h.new_st[3] = Scalar::from(nc);
             h.new_cl[3] = h.new_st[3];
-            h.cust_range_value = nc;
+            h.cust_range_value = nc as u128;
         }
         "wrong-amount-merchant" => {
             let nm = (rc.merch as i128 + amount as i128 + 1) as u64;
             h.new_st[4] = Scalar::from(nm);
             h.new_cl[4] = h.new_st[4];
-            h.merch_range_value = nm;
+            h.merch_range_value = nm as u128;
         }
         "negative-customer-balance" => {
             // pay more than the customer has: the new balance is q - k
@@ -285,7 +294,7 @@ fn run_case(o: &mut Outcome, case: &Value) {
             h.new_st[4] = Scalar::from((rc.merch as i128 + over) as u64);
             h.new_cl[4] = h.new_st[4];
             h.cust_range_value = 0;
-            h.merch_range_value = (rc.merch as i128 + over) as u64 & (i64::MAX as u64);
+            h.merch_range_value = ((rc.merch as i128 + over) as u64 & (i64::MAX as u64)) as u128;
         }
         "merchant-balance-above-max" => {
             // refund more than the merchant has: the merchant balance goes negative (q - k)
@@ -297,7 +306,7 @@ fn run_case(o: &mut Outcome, case: &Value) {
             h.new_st[3] = Scalar::from((rc.cust as i128 + over) as u64);
             h.new_cl[3] = h.new_st[3];
             h.merch_range_value = 0;
-            h.cust_range_value = (rc.cust as i128 + over) as u64 & (i64::MAX as u64);
+            h.cust_range_value = ((rc.cust as i128 + over) as u64 & (i64::MAX as u64)) as u128;
         }
         "foreign-channel-id" => {
             h.new_st[0] += Scalar::one();
@@ -329,26 +338,49 @@ fn run_case(o: &mut Outcome, case: &Value) {
             h.old[3] += Scalar::from(1000u64);
             h.new_st[3] += Scalar::from(1000u64);
             h.new_cl[3] += Scalar::from(1000u64);
-            h.cust_range_value = h.cust_range_value.wrapping_add(1000) & (i64::MAX as u64);
+            h.cust_range_value = (h.cust_range_value + 1000) & (i64::MAX as u128);
         }
         "digit-signature-for-another-digit" => {
-            let d = digits_of(h.cust_range_value);
-            let mut so = d;
+            let d = digits_of(h.cust_range_value, ndig);
+            let mut so = d.clone();
             so[0] = (d[0] + 1) % 128;
             knobs.cust_sig_of = Some(so);
         }
         "digits-permuted" => {
-            let mut d = digits_of(h.cust_range_value);
+            let mut d = digits_of(h.cust_range_value, ndig);
             d.swap(0, 1);
-            if d == digits_of(h.cust_range_value) {
+            if d == digits_of(h.cust_range_value, ndig) {
                 d[0] = (d[0] + 1) % 128;
             }
-            knobs.cust_digits_msg = Some(d);
+            knobs.cust_digits_msg = Some(d.clone());
             knobs.cust_sig_of = Some(d);
         }
         "all-maximal-digits" => {
-            knobs.cust_digits_msg = Some([127; 9]);
-            knobs.cust_sig_of = Some([127; 9]);
+            knobs.cust_digits_msg = Some(vec![127; ndig]);
+            knobs.cust_sig_of = Some(vec![127; ndig]);
+        }
+        "close-merchant-balance-mismatch" => {
+            // a fully correct state update, but another merchant balance in the close state only
+            h.new_cl[4] = if s.chance(1, 2) { Scalar::zero() } else { h.new_cl[4] + Scalar::from(1000u64) };
+            if h.new_cl[4] == h.new_st[4] {
+                h.new_cl[4] += Scalar::one();
+            }
+            knobs.unlink = Some("close-merchant");
+        }
+        "balance-just-above-2^63" => {
+            // a refund that takes the customer just past 2^63-1; the digits are those of the true
+            // (out-of-range) value in as many digit proofs as the wire format holds
+            let room = (i64::MAX as u64 - rc.cust) as i128;
+            let over = room + 1 + s.below(20) as i128;
+            present_amount = -(over.min(i64::MAX as i128) as i64);
+            let nc = rc.cust as i128 + over;
+            h.new_st[3] = refc::int_scalar(nc);
+            h.new_cl[3] = h.new_st[3];
+            let nm = rc.merch as i128 - over;
+            h.new_st[4] = refc::int_scalar(nm);
+            h.new_cl[4] = h.new_st[4];
+            h.cust_range_value = nc as u128;
+            h.merch_range_value = if nm >= 0 { nm as u128 } else { 0 };
         }
         "close-balance-mismatch" => {
             h.new_cl[3] += Scalar::from(1000u64);
@@ -368,13 +400,44 @@ fn run_case(o: &mut Outcome, case: &Value) {
     if !adaptive {
         let d = pay_draft(m, &h, &token, &knobs, &mut s);
         let shown_b = refc::scb(&shown).to_vec();
-        if true_statement(&rc, &h, &shown, present_amount) && token == rc.token && knobs.cust_sig_of.is_none() && knobs.cust_digits_msg.is_none() {
+        if !variant.starts_with("invalid-subproof") && true_statement(&rc, &h, &shown, present_amount) && token == rc.token && knobs.cust_sig_of.is_none() && knobs.cust_digits_msg.is_none() {
             o.bump("probe.degenerate_variant_skipped");
             return;
         }
-        let draft = assemble_pay(&template, &d, None, &PayOverrides::default());
-        let mut build = |c: &Scalar| assemble_pay(&template, &d, Some(c), &PayOverrides::default());
+        // "invalid-subproof-*": the commitment of one sub-proof is to a false message while its
+        // responses are those of the true one (the Schnorr equation of that sub-proof fails, every
+        // cross-proof equation holds)
+        let mk_ov = |d: &PayDraft| -> PayOverrides {
+            let mut ov = PayOverrides::default();
+            let thousand = Scalar::from(1000u64);
+            match variant.as_str() {
+                "invalid-subproof-revlock" => {
+                    let c2 = refc::commit_g1(&m.rev_h, &[m.rev_g], &d.revlock.bf, &[d.revlock.m[0] + thousand]);
+                    ov.g1.push(("old_revocation_lock_proof.commitment".into(), c2));
+                }
+                "invalid-subproof-state" | "invalid-subproof-close" => {
+                    let (raw, pfx) = if variant == "invalid-subproof-state" { (&d.st, "state_proof.commitment_proof") } else { (&d.cl, "close_state_proof.commitment_proof") };
+                    let mut mm = raw.m.clone();
+                    mm[3] += thousand;
+                    ov.g1.push((format!("{}.commitment", pfx), refc::commit_g1(&m.pk.g1, &m.pk.y1s, &raw.bf, &mm)));
+                }
+                "invalid-subproof-token" => {
+                    let mut mm = d.token.m.clone();
+                    mm[3] += thousand;
+                    ov.g2.push(("old_pay_token_proof.commitment_proof.scalar_commitment".into(), refc::commit_g2(&m.pk.g2, &m.pk.y2s, &d.token.s_bf, &mm)));
+                }
+                _ => {}
+            }
+            ov
+        };
+        let invalid_subproof = variant.starts_with("invalid-subproof");
+        let draft = assemble_pay(&template, &d, None, &mk_ov(&d));
+        let mut build = |c: &Scalar| assemble_pay(&template, &d, Some(c), &mk_ov(&d));
         let p = attack_pay(m, present_amount, &shown_b, &ctx, &draft, &mut build, seed, o);
+        if let (true, Some(_)) = (invalid_subproof, &p.accepted) {
+            o.violate("invalid-subproof-accepted", &site, format!("a pay proof whose {} sub-proof does not satisfy its own Schnorr equation was accepted", &variant["invalid-subproof-".len()..]));
+            return;
+        }
         if let Some((_u, cs)) = p.accepted {
             let ok = unblinds_to_signature_on(m, &cs, &d.cl.bf, &h.new_cl);
             accepted_false.push((site.clone(), p.rounds, format!("closing signature unblinds to a valid signature on the prover's hidden close state: {}", ok)));
@@ -386,7 +449,8 @@ fn run_case(o: &mut Outcome, case: &Value) {
                 let mut acc = 0;
                 for k in 0..2 {
                     let made_up = refc::rand_scalar(&mut s);
-                    let (h2, _, _) = honest_pay_hidden(&rc, amount, &mut s);
+                    let (mut h2, _, _) = honest_pay_hidden(&rc, amount, &mut s);
+                    h2.digits = ndig;
                     let d = pay_draft(m, &h2, &rc.token, &PayKnobs::default(), &mut s);
                     let ctx2 = format!("c02-double/{}/{}", k, s.u64()).into_bytes();
                     let draft = assemble_pay(&template, &d, None, &PayOverrides::default());
@@ -506,7 +570,7 @@ fn run_case(o: &mut Outcome, case: &Value) {
                 hh.new_st[4] = Scalar::from((rc.merch as i128 + over) as u64);
                 hh.new_cl[4] = hh.new_st[4];
                 hh.cust_range_value = 0;
-                hh.merch_range_value = ((rc.merch as i128 + over) as u64) & (i64::MAX as u64);
+                hh.merch_range_value = (((rc.merch as i128 + over) as u64) & (i64::MAX as u64)) as u128;
                 let dt = pay_draft(m, &hh, &rc.token, &PayKnobs::default(), &mut s);
                 let draft = assemble_pay(&template, &dt, None, &PayOverrides::default());
                 let d0: &Raw2 = &dt.cust_range.digits[0].raw;
@@ -558,7 +622,11 @@ impl Prop for C02 {
         let mut sch = Sched::new(seed, "c02/cases");
         for rep in 0..reps {
             for name in VARIANTS.iter() {
-                let (cust, merch) = if rep == 0 { (500, 40) } else { (1 + (sch.u64() >> (2 + sch.usize(50))), sch.u64() >> (2 + sch.usize(50))) };
+                let (mut cust, mut merch) = if rep == 0 { (500, 40) } else { (1 + (sch.u64() >> (2 + sch.usize(50))), sch.u64() >> (2 + sch.usize(50))) };
+                if *name == "balance-just-above-2^63" {
+                    cust = (1u64 << 63) - 6 - sch.below(100);
+                    merch = 300 + sch.below(1000);
+                }
                 let amount: i64 = match sch.usize(5) {
                     0 => 0,
                     1 => -((1 + sch.below(merch.max(1).min(1000))) as i64),
